@@ -275,6 +275,45 @@ func (e *Engine) oracle(heavy bool) {
 	for i, u := range e.W.Users {
 		demands[i].must, demands[i].amb = e.mustOffer(u.Addr)
 	}
+	// Blind spots: a transaction the node may still hold but the model no
+	// longer follows (excused for age, a limit, a code change; or found
+	// uncovered but payable by now) hides what the node does with its
+	// successors at a promotion (it may drop one as uncovered at that moment).
+	// Nothing above such a transaction is demanded.
+	for i, u := range e.W.Users {
+		a := u.Addr
+		c := e.committedNonce(a)
+		bal := e.W.Led.Get(a).Balance
+		blind, has := uint64(0), false
+		for _, x := range e.held[a] {
+			if x.Accepted || x.Nonce < c || e.isCommitted(x) {
+				continue
+			}
+			if x.Uncovered && bal.Cmp(x.Cost) < 0 {
+				continue // certainly still uncovered: the node cannot get past it either
+			}
+			if !has || x.Nonce < blind {
+				blind, has = x.Nonce, true
+			}
+		}
+		if !has {
+			continue
+		}
+		changed := false
+		for _, n := range e.sortedNonces(a) {
+			if n <= blind {
+				continue
+			}
+			for _, m := range append([]*MTx(nil), e.live[a][n]...) {
+				e.C.Probe("excused-above-blind-spot")
+				e.dropLive(m)
+				changed = true
+			}
+		}
+		if changed {
+			demands[i].must, demands[i].amb = e.mustOffer(a)
+		}
+	}
 	// what queues behind a transaction the node still holds although it was
 	// uncovered at its turn is exposed to the promotion loop's treatment of a
 	// failed member (see the known finding)
